@@ -366,14 +366,17 @@ def r_clone(ck: Checker) -> None:
     if not ok:
         ck.violation("R-LEG-CLONE", f, g, what, construct=f"transform: the clone is made under `{norm(g.test)}` (attached subtrees / roots may be visited in place)")
         return
-    remembered = any(isinstance(x, ast.Assign) and norm(x.targets[0]) == "orig_node" and norm(x.value) == nodep for x in g.body)
-    order_ok = remembered and [norm(x.targets[0]) for x in g.body if isinstance(x, ast.Assign)][:2] == ["orig_node", nodep]
+    # the local that remembers the attached original: bound to the parameter inside the guard, before the clone replaces it
+    keep = [norm(x.targets[0]) for x in g.body if isinstance(x, ast.Assign) and isinstance(x.targets[0], ast.Name) and norm(x.value) == nodep]
+    ov = keep[0] if keep else "orig_node"
+    remembered = bool(keep)
+    order_ok = remembered and [norm(x.targets[0]) for x in g.body if isinstance(x, ast.Assign)][:2] == [ov, nodep]
     tries = [st for st in fn.body if isinstance(st, ast.Try)]
     rw_ok = False
     if len(tries) == 1:
         t = tries[0]
         visit = [x for x in t.body if isinstance(x, ast.Assign) and "visit(" in norm(x.value)]
-        rw = [x for x in t.body if isinstance(x, ast.If) and norm(x.test) == "orig_node is not None" and [norm(y) for y in x.body] == [f"orig_node.replace_with({norm(visit[0].targets[0])})"]] if visit else []
+        rw = [x for x in t.body if isinstance(x, ast.If) and norm(x.test) == f"{ov} is not None" and [norm(y) for y in x.body] == [f"{ov}.replace_with({norm(visit[0].targets[0])})"]] if visit else []
         rw_ok = bool(visit) and bool(rw) and t.body.index(visit[0]) < t.body.index(rw[0])
     if order_ok and rw_ok:
         ck.holds("R-LEG-CLONE", f, g, what, guard=norm(g.test))
